@@ -2,6 +2,7 @@ package props
 
 import (
 	"fmt"
+	"io"
 	"math/rand"
 	"net"
 	"testing"
@@ -304,6 +305,123 @@ func runC20(t *testing.T, rng *rand.Rand, rec *sim.Rec, tier string, caseNo int)
 	rec.SetSample(map[string]any{"generator": gut.name, "min": lo, "max": hi, "v6": v6, "rand_mode": rnd.mode, "max_retries": retries, "steps": steps})
 }
 
+// runC20Real: the same generators over the operating system's loopback sockets. Socket options
+// (SO_REUSEADDR / SO_REUSEPORT set through ListenConfig.Control) only have a meaning there: the
+// simulated network cannot tell whether "bind" still refuses a port that is in use.
+func runC20Real(t *testing.T, rng *rand.Rand, rec *sim.Rec, tier string, caseNo int) {
+	defer func() {
+		if r := recover(); r != nil {
+			rec.Violate("gen-panic", "panic", "generator panicked on real sockets: %v", r)
+		}
+	}()
+	tcp := caseNo%2 == 1
+	v6 := (caseNo/2)%4 == 3
+	host := "127.0.0.1"
+	network := "udp4"
+	if tcp {
+		network = "tcp4"
+	}
+	if v6 {
+		host = "::1"
+		network = network[:3] + "6"
+	}
+	hostIP := net.ParseIP(host)
+	// find a port that is free right now
+	free := func() int {
+		if tcp {
+			l, err := net.Listen(network, net.JoinHostPort(host, "0"))
+			if err != nil {
+				return 0
+			}
+			defer l.Close() //nolint:errcheck
+
+			return l.Addr().(*net.TCPAddr).Port
+		}
+		c, err := net.ListenPacket(network, net.JoinHostPort(host, "0"))
+		if err != nil {
+			return 0
+		}
+		defer c.Close() //nolint:errcheck
+
+		return c.LocalAddr().(*net.UDPAddr).Port
+	}
+	p0 := free()
+	if p0 == 0 {
+		rec.Ev("real-loopback-unavailable/" + network)
+		rec.FP("real/unavailable/%s", network)
+
+		return
+	}
+	var g turn.RelayAddressGenerator
+	name := []string{"range", "static", "none"}[(caseNo/8)%3]
+	switch name {
+	case "range":
+		g = &turn.RelayAddressGeneratorPortRange{RelayAddress: hostIP, Address: host, MinPort: uint16(p0), MaxPort: uint16(p0), MaxRetries: 4}
+	case "static":
+		g = &turn.RelayAddressGeneratorStatic{RelayAddress: hostIP, Address: host}
+	default:
+		g = &turn.RelayAddressGeneratorNone{Address: host}
+	}
+	if err := g.Validate(); err != nil {
+		rec.Violate("gen-spurious-error", "validate", "%s.Validate failed: %v", name, err)
+
+		return
+	}
+	alloc := func(req int) (io.Closer, int, error) {
+		conf := turn.AllocateListenerConfig{Network: network, UserID: "u", Realm: "r", RequestedPort: req}
+		if tcp {
+			l, adv, err := g.AllocateListener(conf)
+			if err != nil {
+				return nil, 0, err
+			}
+			_, ap := portOf(adv)
+			if _, bp := portOf(l.Addr()); bp != ap {
+				rec.Violate("gen-advertised-port", name+"/real", "%s advertises port %d, the listener is bound to %d", name, ap, bp)
+			}
+
+			return l, ap, nil
+		}
+		c, adv, err := g.AllocatePacketConn(conf)
+		if err != nil {
+			return nil, 0, err
+		}
+		_, ap := portOf(adv)
+		if _, bp := portOf(c.LocalAddr()); bp != ap {
+			rec.Violate("gen-advertised-port", name+"/real", "%s advertises port %d, the socket is bound to %d", name, ap, bp)
+		}
+
+		return c, ap, nil
+	}
+	first, port, err := alloc(0)
+	if err != nil {
+		rec.Ev("real-first-bind-failed") // somebody else took the port in between: nothing to learn
+		rec.FP("real/%s/%s/first-busy", name, network)
+
+		return
+	}
+	defer first.Close() //nolint:errcheck
+	if name == "range" && port != p0 {
+		rec.Violate("gen-port-out-of-range", "real", "range generator [%d,%d] returned port %d", p0, p0, port)
+	}
+	// the first allocation is live: neither asking for its port nor (single-port range) asking
+	// for any port may produce a second socket on it
+	how := "requested"
+	req := port
+	if name == "range" && rng.Intn(2) == 0 {
+		how, req = "range-collision", 0
+	}
+	second, port2, err := alloc(req)
+	if err == nil {
+		_ = second.Close()
+		if port2 == port {
+			rec.Violate("gen-port-shared", network[:3]+"/"+how, "%s handed out %s port %d (%s) while a live allocation made by the same generator holds it: two live allocations share a relay port", name, network, port, how)
+		}
+	}
+	rec.Ev("real-socket-double-allocations")
+	rec.FP("real/%s/%s/%s/second-err=%v", name, network, how, err != nil)
+	rec.SetSample(map[string]any{"generator": name, "network": network, "real_sockets": true, "how": how, "port": port})
+}
+
 func init() {
 	register("C20", PropDef{
 		Bubble: false,
@@ -314,6 +432,13 @@ func init() {
 
 			return 3000
 		},
-		Run: runC20,
+		Run: func(t *testing.T, rng *rand.Rand, rec *sim.Rec, tier string, caseNo int) {
+			if caseNo%10 == 9 {
+				runC20Real(t, rng, rec, tier, caseNo/10)
+
+				return
+			}
+			runC20(t, rng, rec, tier, caseNo)
+		},
 	})
 }
